@@ -10,9 +10,11 @@ namespace Spydr.IO
 def PolicyClean {ρ ε α : Type} (c : Call ρ ε α) : Prop :=
   ∀ s, (c s).1.policy = s.policy
 
-/-- A parse body that never assigns the policy (needed only for readers that do not switch it). -/
-def Neutral {ρ ε α : Type} (c : Call ρ ε α) : Prop :=
-  ∀ s, (c s).1.policy = s.policy
+/-- The body of a reader that does not switch the policy is policy-read-only (see `ROBody`): this is
+    a MODELLING ASSUMPTION about the EBLIF reader's source, not something the theorems establish.
+    For such a reader `PolicyClean` is immediate — the theorems have content for the two readers that
+    do switch (EDIF, Verilog), where the body is an arbitrary `Call`. -/
+def ReadOnly {ρ ε α : Type} (c : Call ρ ε α) : Prop := ∃ b : ROBody ρ ε α, c = liftRO b
 
 /-- The result of a body depends on the process state through the policy only. -/
 def PolicyOnly {ρ ε α : Type} (c : Call ρ ε α) : Prop :=
